@@ -38,6 +38,8 @@ struct LockState {
     edges: BTreeMap<(String, String), BTreeSet<String>>,
     acquisitions: BTreeMap<String, u64>,
     cycles_seen: Vec<String>,
+    /// how often each order edge was taken
+    edge_counts: BTreeMap<(String, String), u64>,
 }
 
 pub struct Ctl {
@@ -48,6 +50,11 @@ pub struct Ctl {
     /// random pre-acquisition noise: 0 = off, otherwise sleep with probability 1/n
     pub noise: AtomicU64,
     noise_ctr: AtomicU64,
+    /// directed confirmation of a potential lock-order cycle: a thread that holds the first class
+    /// of one of these (held, attempted) pairs and attempts the second is delayed before the
+    /// attempt, so that the other side of the cycle can get to the same point
+    suspects: Mutex<BTreeSet<(String, String)>>,
+    suspect_pauses: AtomicU64,
 }
 
 fn class_name(ev: &LockEvent) -> String {
@@ -72,6 +79,8 @@ impl Ctl {
             lock_monitoring: AtomicBool::new(false),
             noise: AtomicU64::new(0),
             noise_ctr: AtomicU64::new(0),
+            suspects: Mutex::new(BTreeSet::new()),
+            suspect_pauses: AtomicU64::new(0),
         })
     }
 
@@ -128,8 +137,21 @@ impl Ctl {
         self.locks.lock().unwrap().edges.clone()
     }
 
+    pub fn edge_counts(&self) -> BTreeMap<(String, String), u64> {
+        self.locks.lock().unwrap().edge_counts.clone()
+    }
+
     pub fn acquisitions(&self) -> BTreeMap<String, u64> {
         self.locks.lock().unwrap().acquisitions.clone()
+    }
+
+    pub fn set_suspects(&self, pairs: BTreeSet<(String, String)>) {
+        *self.suspects.lock().unwrap() = pairs;
+        self.suspect_pauses.store(0, Ordering::Relaxed);
+    }
+
+    pub fn suspect_pauses(&self) -> u64 {
+        self.suspect_pauses.load(Ordering::Relaxed)
     }
 
     pub fn cycles_seen(&self) -> Vec<String> {
@@ -218,14 +240,24 @@ impl Hooks for Ctl {
         match ev.phase {
             LockPhase::Attempt => {
                 let n = self.noise.load(Ordering::Relaxed);
+                let mut pause: Option<(String, String)> = None;
                 {
                     let mut st = self.locks.lock().unwrap();
                     let held: Vec<Held> = st.held.get(&me).cloned().unwrap_or_default();
                     let held_names: BTreeSet<String> = held.iter().map(|h| format!("{}({})", h.class, mode_tag(h.mode))).collect();
                     let to = format!("{}({})", cls, mode_tag(ev.mode));
+                    {
+                        let sus = self.suspects.lock().unwrap();
+                        if !sus.is_empty()
+                            && let Some(f) = held_names.iter().find(|f| sus.contains(&((*f).clone(), to.clone())))
+                        {
+                            pause = Some((f.clone(), to.clone()));
+                        }
+                    }
                     for h in &held {
                         let from = format!("{}({})", h.class, mode_tag(h.mode));
                         let others: BTreeSet<String> = held_names.iter().filter(|x| **x != from).cloned().collect();
+                        *st.edge_counts.entry((from.clone(), to.clone())).or_default() += 1;
                         st.edges
                             .entry((from, to.clone()))
                             .and_modify(|common| *common = common.intersection(&others).cloned().collect())
@@ -238,7 +270,23 @@ impl Hooks for Ctl {
                         st.cycles_seen.push(c);
                     }
                 }
-                if n > 0 && self.noise_ctr.fetch_add(1, Ordering::Relaxed) % n == 0 {
+                if let Some((_from, _to)) = pause
+                    && self.suspect_pauses.fetch_add(1, Ordering::Relaxed) < 200
+                {
+                    // Holding the first lock of a suspected inversion on its rarely taken side:
+                    // stay here long enough for a thread on the frequently taken side to lock what
+                    // this one wants next and to start waiting for what this one holds. If the
+                    // inversion is feasible the two then block each other for good and the
+                    // wait-for monitor sees the cycle.
+                    std::thread::sleep(Duration::from_millis(400));
+                    if std::env::var("VERIF_DEBUG_LOCKS").is_ok() {
+                        let st = self.locks.lock().unwrap();
+                        eprintln!("after pause: me={me:?} held={:?}", st.held.get(&me).map(|v| v.iter().map(|h| format!("{}#{}", h.class, h.lock_id)).collect::<Vec<_>>()));
+                        for (t, w) in &st.waiting {
+                            eprintln!("   waiting {t:?} -> {}#{} holding {:?}", w.1, w.0, st.held.get(t).map(|v| v.iter().map(|h| format!("{}#{}", h.class, h.lock_id)).collect::<Vec<_>>()));
+                        }
+                    }
+                } else if n > 0 && self.noise_ctr.fetch_add(1, Ordering::Relaxed) % n == 0 {
                     std::thread::sleep(Duration::from_micros(200));
                 }
             }
